@@ -8,7 +8,7 @@ from ncclient.xml_ import BASE_NS_1_0
 def remove_namespaces(xml):
 
     for elem in xml.getiterator():
-        if elem.tag is etree.Comment:
+        if elem.tag is etree.Comment or elem.tag is etree.ProcessingInstruction:
             continue
         i = elem.tag.find('}')
         if i > 0:
